@@ -341,7 +341,7 @@ func c14Shapes() []*c14Val {
 		long = append(long, c14S("e"+strconv.Itoa(i)))
 	}
 	long = append(long, c14L(c14S("z")))
-	big := []any{"k", c14L(c14S("x"), c14S("y")), "m", c14M("k", c14S("v"))}
+	big := []any{"k", c14L(c14S("x"), c14S("y")), "m", c14M("k", c14S("v")), c14Nil, c14S("old")}
 	for i := 0; i < 40; i++ {
 		big = append(big, "q"+strconv.Itoa(i), c14S("r"+strconv.Itoa(i)))
 	}
@@ -352,11 +352,19 @@ func c14Shapes() []*c14Val {
 		c14M("k", c14M("k", c14L(c14S("x"), c14S("y")), "m", c14S("z"))),
 		c14L(long...),
 		c14M(big...),
+		c14M(c14Nil, c14S("old"), "k", c14M(c14Nil, c14L(c14S("x"), c14S("y")), "m", c14S("z"))),
 	}
 }
 
+// c14Nil is the index $nil. The model treats it as an ordinary map key that is
+// different from every string key; it is written $nil in source text and in repr,
+// and sorts before every string key (repr orders keys of different types by
+// type, and the nil type comes first).
+const c14Nil = "$nil"
+
 var c14Paths = [][]string{
-	{"0"}, {"1"}, {"-1"}, {"k"}, {"m"},
+	{"0"}, {"1"}, {"-1"}, {"k"}, {"m"}, {c14Nil},
+	{"k", c14Nil}, {c14Nil, "0"},
 	{"0", "0"}, {"0", "1"}, {"0", "-1"}, {"1", "0"}, {"-1", "0"}, {"0", "k"}, {"k", "0"}, {"k", "k"}, {"k", "m"}, {"m", "k"},
 	{"0", "0", "0"}, {"0", "k", "0"}, {"k", "k", "0"},
 }
@@ -521,9 +529,8 @@ func c14Alphabet() []*c14Step {
 		out = append(out, &c14Step{kind: kind, vr: vr, paths: paths, vals: vals, tier: tier})
 	}
 	str, list, mp, self := []string{"str"}, []string{"list"}, []string{"map"}, []string{"self"}
-	midP := map[string]bool{"0": true, "-1": true, "k": true, "0,0": true, "0,k": true, "k,0": true, "k,k": true, "-1,0": true}
-	core := map[string]bool{"set 0 list": true, "set k list": true, "set 0,0 str": true, "set k,0 str": true, "set -1 self": true,
-		"del k": true, "del 0,k": true, "tmp 0,0 list": true}
+	midP := map[string]bool{"0": true, "-1": true, "k": true, "0,0": true, "0,k": true, "k,0": true, "k,k": true, "-1,0": true, "$nil": true, "k,$nil": true}
+	core := map[string]bool{"set 0 list": true, "set $nil list": true, "set k,0 str": true, "set -1 self": true, "del k": true}
 	for _, p := range c14Paths {
 		ps := strings.Join(p, ",")
 		tier := func(name string, mid bool) int {
@@ -535,17 +542,19 @@ func c14Alphabet() []*c14Step {
 			}
 			return 2
 		}
-		add(tier("set "+ps+" str", true), "set", "a", str, p)
+		add(tier("set "+ps+" str", len(p) > 1), "set", "a", str, p)
 		add(tier("set "+ps+" list", true), "set", "a", list, p)
-		add(tier("set "+ps+" map", false), "set", "a", mp, p)
+		if len(p) == 1 {
+			add(tier("set "+ps+" map", false), "set", "a", mp, p)
+		}
 		add(tier("set "+ps+" self", true), "set", "a", self, p)
 		add(tier("del "+ps, true), "del", "a", nil, p)
 		add(tier("tmp "+ps+" list", true), "tmp", "a", list, p)
-		add(tier("with "+ps+" list", true), "with", "a", list, p)
+		add(tier("with "+ps+" list", false), "with", "a", list, p)
 	}
 	pairs := [][2][]string{
 		{{"0"}, {"1"}}, {{"k"}, {"m"}}, {{"0", "0"}, {"0", "1"}}, {{"0", "0"}, {"-1"}},
-		{{"k", "0"}, {"m", "k"}}, {{"k", "k"}, {"k", "m"}}, {{"0"}, {"0", "0"}},
+		{{"k", "0"}, {"m", "k"}}, {{"k", "k"}, {"k", "m"}}, {{"0"}, {"0", "0"}}, {{c14Nil}, {"k"}},
 	}
 	for n, pr := range pairs {
 		t := 2
@@ -566,7 +575,7 @@ func c14Alphabet() []*c14Step {
 		add(2, "set-upvalue", "a", list, p)
 		add(2, "del-upvalue", "a", nil, p)
 	}
-	for _, p := range [][]string{{"0"}, {"-1"}, {"k"}, {"0", "0"}, {"k", "0"}, {"k", "k"}} {
+	for _, p := range [][]string{{"0"}, {"-1"}, {"k"}, {c14Nil}, {"0", "0"}, {"k", "0"}, {"k", "k"}} {
 		t := 2
 		if len(p) == 1 {
 			t = 1
